@@ -34,3 +34,8 @@ def filter_type_task(ctx):
 
 
 TASKS = {"layer1/Circuit.filter_type": filter_type_task}
+
+
+# `n in circuit`: the executor reads it as node membership directly (Exec.member); this task checks that reading on the body.
+from pyvc.tasks_layer1 import refine_task  # noqa: E402
+TASKS["layer1/Circuit.__contains__"] = refine_task("Circuit.__contains__", {"str": ["str"]}, ["n"])
